@@ -437,13 +437,11 @@ fn parse_mcnk_object_chunks<R: Read + Seek>(
             // Parse subchunk based on ID
             match subchunk_header.id {
                 ChunkId::MCRD => {
-                    let mcrd: McrdChunk =
-                        read_bounded(reader, current_pos, subchunk_header.size)?;
+                    let mcrd: McrdChunk = read_bounded(reader, current_pos, subchunk_header.size)?;
                     doodad_refs = mcrd.doodad_refs;
                 }
                 ChunkId::MCRW => {
-                    let mcrw: McrwChunk =
-                        read_bounded(reader, current_pos, subchunk_header.size)?;
+                    let mcrw: McrwChunk = read_bounded(reader, current_pos, subchunk_header.size)?;
                     wmo_refs = mcrw.wmo_refs;
                 }
                 _ => {
